@@ -17,6 +17,14 @@ integrals as pi*c_0 of the product series.  Rank-k references are sums of outer 
 those one-dimensional quantities.  Independence along axes and linearity are metamorphic
 relations between runs of the real code on arbitrary (random, full) coefficient arrays.
 
+Operand preservation.  After EVERY call on a Polynomial (changeBasis, evaluate, derivative,
+matrix, derivMatrix, integrate in every spelling of axis and weight: omitted / None /
+scalar 1 / array) the ``operand_preserved`` monitor checks that the array the caller handed
+in (coefficients, weight) is bit-identical, the labels are as documented, the stored
+numbers are bit-identical when no basis changed and otherwise equal the oracle's numbers
+for the new basis, and -- after an integration -- that evaluate, derivative and the same
+integrate call repeated on the same object still give P, P' and the same number.
+
 Tolerances.  err <= K * eps * g(n) * A  with A = sum|c_k| (a bound on max|P|, taken from the
 case's own polynomial), g the growth of the rounding error of that operation with the
 number of nodes, and one safety factor K (see TOL below: what was observed on the unchanged
@@ -102,7 +110,7 @@ def g_int(n):
 
 FLOORS = {
     # about half of what seeds 0-4 produce on the unchanged tree (quick: 2590 cases,
-    # thorough: 73954 cases); every deciding monitor is listed, so none can be silent.
+    # thorough: ~50000 cases); every deciding monitor is listed, so none can be silent.
     "quick": {"distinct_nontrivial": 1500,
               "mon": {"nodes": 5000, "hook_chebyshev": 20000, "hook_cardinal": 7000,
                       "changebasis": 2000, "roundtrip": 2000, "evaluate": 4000,
@@ -110,24 +118,24 @@ FLOORS = {
                       "derivative": 3000, "integrate": 4000,
                       "integrate_inplace": 2500, "matrix": 1400, "derivmatrix": 1400,
                       "dual": 2800, "axis_independence": 6000, "linearity": 2000,
-                      "metadata": 15000},
+                      "metadata": 15000, "operand_preserved": 100000},
               "cls": {"1d:z:in": 100, "1d:z:ep": 100, "1d:pz:in": 100, "1d:pz:ep": 100,
                       "1d:pp:in": 100, "1d:pp:ep": 100, "nd:rank1": 80, "nd:rank2": 160,
                       "nd:rank3": 160, "nd:rank4": 160, "nd:mixed-array": 300,
                       "Nodd": 500, "Neven": 500, "Grid3Scales": 100}},
-    "thorough": {"distinct_nontrivial": 15000,
-                 "mon": {"nodes": 150000, "hook_chebyshev": 600000, "hook_cardinal": 200000,
-                         "changebasis": 55000, "roundtrip": 55000, "evaluate": 120000,
-                         "evaluate_grid": 40000, "evaluate_single_point": 30000,
-                         "derivative": 95000, "integrate": 110000,
-                         "integrate_inplace": 70000, "matrix": 40000, "derivmatrix": 40000,
-                         "dual": 80000, "axis_independence": 200000, "linearity": 60000,
-                         "metadata": 500000},
-                 "cls": {"1d:z:in": 3000, "1d:z:ep": 3000, "1d:pz:in": 3000,
-                         "1d:pz:ep": 3000, "1d:pp:in": 3000, "1d:pp:ep": 3000,
-                         "nd:rank1": 1200, "nd:rank2": 5000, "nd:rank3": 5000,
-                         "nd:rank4": 5000, "nd:mixed-array": 9000,
-                         "Nodd": 15000, "Neven": 15000, "Grid3Scales": 3000}},
+    "thorough": {"distinct_nontrivial": 10000,
+                 "mon": {"nodes": 100000, "hook_chebyshev": 400000, "hook_cardinal": 130000,
+                         "changebasis": 36000, "roundtrip": 36000, "evaluate": 80000,
+                         "evaluate_grid": 26000, "evaluate_single_point": 20000,
+                         "derivative": 63000, "integrate": 73000,
+                         "integrate_inplace": 46000, "matrix": 26000, "derivmatrix": 26000,
+                         "dual": 53000, "axis_independence": 130000, "linearity": 40000,
+                         "metadata": 330000, "operand_preserved": 2000000},
+                 "cls": {"1d:z:in": 2000, "1d:z:ep": 2000, "1d:pz:in": 2000,
+                         "1d:pz:ep": 2000, "1d:pp:in": 2000, "1d:pp:ep": 2000,
+                         "nd:rank1": 800, "nd:rank2": 3300, "nd:rank3": 3300,
+                         "nd:rank4": 3300, "nd:mixed-array": 6000,
+                         "Nodd": 10000, "Neven": 10000, "Grid3Scales": 2000}},
 }
 
 SIZES_SMALL = list(range(2, 13))
@@ -337,10 +345,10 @@ def generate(tier, seed):
         _gen_nd(rng, pairs, {1: 1, 2: 2, 3: 2, 4: 2}, cases)
         nb = 1
     else:
-        _gen_1d(rng, SIZES_SMALL, 60, cases)
-        _gen_1d(rng, SIZES_EXTRA_T, 6, cases)
-        pairs = list(itertools.product(range(2, 7), range(2, 7))) * 40
-        pairs += [(int(rng.integers(2, 13)), int(rng.integers(2, 13))) for _ in range(1500)]
+        _gen_1d(rng, SIZES_SMALL, 40, cases)
+        _gen_1d(rng, SIZES_EXTRA_T, 4, cases)
+        pairs = list(itertools.product(range(2, 7), range(2, 7))) * 28
+        pairs += [(int(rng.integers(2, 13)), int(rng.integers(2, 13))) for _ in range(1000)]
         _gen_nd(rng, pairs, {1: 1, 2: 4, 3: 4, 4: 4}, cases)
         nb = 6
     # Boltzmann-solver layouts (Array, z, pz, pp) without endpoints, all 8 basis choices
@@ -493,9 +501,74 @@ def _case_1d(case):
     pwant = C.chebval(pts, c)
     obs = {"grid": gname, "n": n, "cond": cond, "amp": A}
 
+    track = {}
+    tol_cb = K * EPS * g_cb(n, cond) * A
+    tol_ev = K * EPS * g_eval(n) * A
+    tol_d = K * EPS * g_der(n) * A
+
     def mk(basis, arr=None):
-        return Polynomial(np.array(reps[basis] if arr is None else arr, dtype=float), grid,
-                          basis, direction, ep)
+        a = np.array(reps[basis] if arr is None else arr, dtype=float)
+        obj = Polynomial(a, grid, basis, direction, ep)
+        # (object kept alive, the caller's array, its pristine copy, is it the series c?)
+        track[id(obj)] = (obj, a, a.copy(), arr is None)
+        return obj
+
+    def preserved(op, obj, wh, exact, again=None):
+        """Operand-preserved monitor, run after EVERY call on a Polynomial: the caller's
+        array is untouched, the labels are intact, and the object still represents the
+        same polynomial -- bit-identical stored numbers when the operation has no
+        documented in-place effect (exact=True), otherwise (in-place basis change) the
+        oracle's numbers for the basis it is now labelled with, and the same function
+        under evaluate.  again=(callable, first_result, tol): after an integration the
+        full battery -- evaluate, derivative, and the very same integrate call repeated
+        on the same object must give the same number."""
+        _, a, a0, is_series = track[id(obj)]
+        J.cmp("operand_preserved", f"{op}-modifies-callers-array", a, a0, 0.0,
+              f"the coefficient array handed to Polynomial() was modified by {op} {wh}")
+        J.mon["operand_preserved"] += 1
+        lab = (isinstance(obj.basis, tuple) and len(obj.basis) == 1
+               and obj.basis[0] in ("Cardinal", "Chebyshev")
+               and tuple(obj.direction) == (direction,) and tuple(obj.endpoints) == (ep,)
+               and obj.grid is grid and obj.rank == 1)
+        if not lab:
+            J.add(f"{op}-alters-operand-labels-{tag}",
+                  f"after {op} the operand is labelled basis={obj.basis} direction="
+                  f"{obj.direction} endpoints={obj.endpoints} rank={obj.rank} {wh}")
+            return
+        if not is_series:
+            return
+        if exact:
+            J.cmp("operand_preserved", f"{op}-alters-operand-{tag}", obj.coefficients, a0,
+                  0.0, f"{op} has no documented in-place effect here, yet the stored "
+                  f"coefficients of the operand changed {wh}")
+        else:
+            J.cmp("operand_preserved", f"{op}-alters-operand-{tag}", obj.coefficients,
+                  reps[obj.basis[0]], tol_cb,
+                  f"after {op} the operand (now labelled {obj.basis[0]}) no longer holds the "
+                  f"numbers that represent the same polynomial {wh}")
+        if exact and again is None:
+            return
+        ok_, val_ = J.call("evaluate", lambda: obj.evaluate(pts[None, :]), wh + f" after {op}")
+        if ok_:
+            J.cmp("operand_preserved", f"{op}-alters-operand-{tag}", val_, pwant,
+                  tol_ev + tol_cb * (n + 1.0),
+                  f"operand evaluated after {op} is no longer the same polynomial {wh}")
+        if again is None:
+            return
+        fn, first, tol_again = again
+        ok_, d_ = J.call("derivative", lambda: obj.derivative(0), wh + f" after {op}")
+        if ok_ and isinstance(d_, Polynomial):
+            J.cmp("operand_preserved", f"{op}-alters-operand-{tag}", d_.coefficients, dwant,
+                  tol_d * (1.0 + cond),
+                  f"derivative of the operand after {op} is no longer P' {wh}")
+        ok_, second = J.call("integrate", lambda: fn(obj), wh + f" repeated after {op}")
+        if ok_:
+            J.cmp("operand_preserved", f"{op}-alters-operand-{tag}", second, first, tol_again,
+                  f"the same {op} call repeated on the same object gives a different "
+                  f"number {wh}")
+        J.cmp("operand_preserved", f"{op}-modifies-callers-array", a, a0, 0.0,
+              f"the coefficient array handed to Polynomial() was modified by a repeated "
+              f"{op} {wh}")
 
     for b0 in ("Cardinal", "Chebyshev"):
         b1 = "Chebyshev" if b0 == "Cardinal" else "Cardinal"
@@ -504,9 +577,9 @@ def _case_1d(case):
         if not ok:
             continue
         # ---- basis change there and back
-        tol_cb = K * EPS * g_cb(n, cond) * A
         ok, _ = J.call("changeBasis", lambda: p.changeBasis(b1), what)
         if ok:
+            preserved("changeBasis", p, what, exact=False)
             J.cmp("changebasis", f"changebasis-to-{b1.lower()}-{tag}", p.coefficients,
                   reps[b1], tol_cb, f"changeBasis({b1!r}) coefficients vs oracle {what}")
             J.meta(f"changebasis-label-{tag}", p.basis == (b1,),
@@ -515,13 +588,19 @@ def _case_1d(case):
             if ok:
                 J.cmp("roundtrip", f"changebasis-roundtrip-{tag}", p.coefficients, reps[b0],
                       tol_cb, f"{b0}->{b1}->{b0} must return the coefficients {what}")
+                preserved("changeBasis", p, what + " (there and back)", exact=False)
+        # a basis change to the basis the object is already in is a no-op
+        p = mk(b0)
+        ok, _ = J.call("changeBasis", lambda: p.changeBasis(b0), what + " same basis")
+        if ok:
+            preserved("changeBasis", p, what + " (same basis)", exact=True)
         # ---- evaluation
-        tol_ev = K * EPS * g_eval(n) * A
         p = mk(b0)
         ok, val = J.call("evaluate", lambda: p.evaluate(pts[None, :]), what)
         if ok:
             J.cmp("evaluate", f"evaluate-{b0.lower()}-{tag}", val, pwant, tol_ev,
                   f"evaluate at 5 random points, the {n + 1} nodes and +-1 {what}")
+            preserved("evaluate", p, what, exact=True)
         ok, val = J.call("evaluate", lambda: p.evaluate(np.asarray(kp)[None, :]), what)
         if ok:
             J.cmp("evaluate_grid", f"evaluate-grid-values-{b0.lower()}-{tag}", val,
@@ -534,11 +613,8 @@ def _case_1d(case):
                    f"evaluate((1,)) must return a float, got {type(val).__name__} {what}")
             J.cmp("evaluate", f"evaluate-{b0.lower()}-{tag}", val, C.chebval(x0, c), tol_ev,
                   f"evaluate at the single point {x0!r} {what}")
-        J.meta(f"evaluate-modifies-coefficients-{tag}",
-               np.array_equal(p.coefficients, reps[b0]),
-               f"evaluate changed the object's coefficients {what}")
+            preserved("evaluate", p, what + " single point", exact=True)
         # ---- derivative
-        tol_d = K * EPS * g_der(n) * A
         ok, d = J.call("derivative", lambda: p.derivative(0), what)
         if ok:
             good = (isinstance(d, Polynomial) and d.basis == ("Cardinal",)
@@ -550,13 +626,12 @@ def _case_1d(case):
             if isinstance(d, Polynomial):
                 J.cmp("derivative", f"derivative-{b0.lower()}-{tag}", d.coefficients, dwant,
                       tol_d, f"derivative at all {n + 1} nodes incl. both ends {what}")
-            J.meta(f"derivative-modifies-coefficients-{tag}",
-                   np.array_equal(p.coefficients, reps[b0]),
-                   f"derivative changed the object's coefficients {what}")
+            preserved("derivative", p, what, exact=True)
         ok, d = J.call("derivative", lambda: p.derivative((0,)), what + " tuple axis")
         if ok and isinstance(d, Polynomial):
             J.cmp("derivative", f"derivative-{b0.lower()}-{tag}", d.coefficients, dwant,
                   tol_d, f"derivative(axis=(0,)) {what}")
+            preserved("derivative", p, what + " tuple axis", exact=True)
         # ---- matrix / derivMatrix
         ok, Dm = J.call("derivMatrix", lambda: p.derivMatrix(b0, direction, ep), what)
         if ok:
@@ -565,8 +640,10 @@ def _case_1d(case):
                       f"derivMatrix shape {Dm.shape}, expected {(n + 1, nco)} {what}"):
                 J.cmp("derivmatrix", f"derivmatrix-{b0.lower()}-{tag}", Dm @ reps[b0], dwant,
                       tol_d, f"derivMatrix @ coefficients vs exact derivative {what}")
+            preserved("derivMatrix", p, what, exact=True)
         ok, Mm = J.call("matrix", lambda: p.matrix(b0, direction, ep), what)
         if ok:
+            preserved("matrix", p, what, exact=True)
             Mm = np.asarray(Mm, dtype=float)
             if b0 == "Cardinal":
                 J.cmp("matrix", f"matrix-cardinal-{tag}", Mm, np.eye(nco), 0.0,
@@ -595,9 +672,12 @@ def _case_1d(case):
             iw = f"integrate(axis={axis}, weight=q*{wclass}, deg q={dq}, deg integrand*" \
                  f"sqrt(1-x^2)={deg + dq + (2 if wclass == 'sqrt' else (1 if direction == 'pp' else 0))}" \
                  f" <= {2 * n - 1}) {what}"
+            w0 = w.copy()
             ok, res = J.call("integrate", lambda: p3.integrate(axis, w), iw)
             if not ok:
                 continue
+            J.cmp("operand_preserved", "integrate-modifies-callers-weight", w, w0, 0.0,
+                  f"the weight array handed to integrate was modified {iw}")
             J.meta(f"integrate-return-type-{tag}", isinstance(res, float),
                    f"full integration must return a float, got {type(res).__name__} {iw}")
             J.cmp("integrate", f"integrate-{wclass}-{tag}", res, want, tol_i, iw)
@@ -609,23 +689,47 @@ def _case_1d(case):
                       tol_ev + K * EPS * g_cb(n, 1.0) * A,
                       f"object evaluated after integrate() must still be the same "
                       f"polynomial {iw}")
-        # default weight: weight=1 / None / omitted must equal an explicit array of ones
-        p4, p5 = mk(b0), mk(b0)
-        form = int(rng.integers(0, 3))
-        ok, r1 = J.call("integrate", lambda: (p4.integrate() if form == 0 else
-                                              p4.integrate(None, None) if form == 1 else
-                                              p4.integrate(0, 1)), what + " default weight")
+            preserved("integrate", p3, iw, exact=(b0 == "Cardinal"),
+                      again=(lambda o, ax_=axis, w_=w: o.integrate(ax_, w_), res, tol_i))
+            J.cmp("operand_preserved", "integrate-modifies-callers-weight", w, w0, 0.0,
+                  f"the weight array handed to integrate was modified by the repeated "
+                  f"call {iw}")
+        # every trivial-weight form (omitted / None / scalar 1 / scalar 1.0; axis omitted,
+        # None, int, tuple) must equal an explicit array of ones, and leave the operand intact
+        p5 = mk(b0)
         ok2, r2 = J.call("integrate", lambda: p5.integrate(weight=np.ones(nco)), what)
-        if ok and ok2:
-            J.cmp("integrate", f"integrate-default-weight-{tag}", r1, r2,
-                  K * EPS * g_int(n) * A * math.pi,
-                  f"integrate() with the default weight vs weight=ones {what}")
+        if ok2:
+            preserved("integrate", p5, what + " weight=ones", exact=(b0 == "Cardinal"),
+                      again=(lambda o: o.integrate(weight=np.ones(nco)), r2,
+                             K * EPS * g_int(n) * A * math.pi))
+        forms = [("integrate()", lambda o: o.integrate()),
+                 ("integrate(None, None)", lambda o: o.integrate(None, None)),
+                 ("integrate(0, 1)", lambda o: o.integrate(0, 1)),
+                 ("integrate((0,), 1.0)", lambda o: o.integrate((0,), 1.0)),
+                 ("integrate(axis=0)", lambda o: o.integrate(axis=0)),
+                 ("integrate(weight=None)", lambda o: o.integrate(weight=None))]
+        for fi in rng.permutation(len(forms))[:3]:
+            fname, ffn = forms[int(fi)]
+            p4 = mk(b0)
+            fw = what + f" {fname}"
+            ok, r1 = J.call("integrate", lambda: ffn(p4), fw)
+            if not ok:
+                continue
+            if ok2:
+                J.cmp("integrate", f"integrate-default-weight-{tag}", r1, r2,
+                      K * EPS * g_int(n) * A * math.pi,
+                      f"{fname} with the trivial weight vs weight=ones {what}")
+            J.meta(f"integrate-label-{tag}", p4.basis == ("Cardinal",),
+                   f"after {fname} the integrated axis is labelled {p4.basis} {fw}")
+            preserved("integrate", p4, fw, exact=(b0 == "Cardinal"),
+                      again=(ffn, r1, K * EPS * g_int(n) * A * math.pi))
         # ---- inverse-transpose (dual) transformation: pairing is invariant
         cov = rng.integers(-4, 5, size=nco).astype(float)
         pq = mk(b0, cov)
         tol_du = K * EPS * g_cb(n, cond * cond) * A * max(1.0, float(np.sum(np.abs(cov))))
         ok, _ = J.call("changeBasis", lambda: pq.changeBasis(b1, inverseTranspose=True), what)
         if ok and np.shape(pq.coefficients) == (nco,):
+            preserved("changeBasis", pq, what + " inverseTranspose", exact=False)
             J.cmp("dual", f"changebasis-inverse-transpose-pairing-{tag}",
                   float(np.dot(pq.coefficients, reps[b1])), float(np.dot(cov, reps[b0])),
                   tol_du, f"sum_i q_i p_i after q->inverseTranspose, p->normal {what}")
@@ -711,9 +815,53 @@ def _case_nd(case):
     what = f"[{gname} M={M} N={N} axes={layout} basis={basis0}]"
     conds = {i: R.transform_cond(axes[i]["dir"], axes[i]["ep"], ns[i]) for i in P_axes}
 
+    track = {}
+
     def mk(arr=None, basis=None):
-        return Polynomial(np.array(T0 if arr is None else arr, dtype=float), grid,
-                          basis0 if basis is None else basis, direction, endpoints)
+        a = np.array(T0 if arr is None else arr, dtype=float)
+        obj = Polynomial(a, grid, basis0 if basis is None else basis, direction, endpoints)
+        track[id(obj)] = (obj, a, a.copy(), arr is None and basis is None)
+        return obj
+
+    def preserved(op, obj, wh, want_basis, tol_, again=None):
+        """Operand-preserved monitor (see the 1-D version): caller's array untouched,
+        labels as documented, stored numbers = the oracle tensor for the bases the object
+        is now labelled with (bit-identical to the input when no basis changed), and a
+        repeated call gives the same result."""
+        _, a, a0, is_ref = track[id(obj)]
+        J.cmp("operand_preserved", f"{op}-modifies-callers-array", a, a0, 0.0,
+              f"the coefficient array handed to Polynomial() was modified by {op} {wh}")
+        J.mon["operand_preserved"] += 1
+        if not (tuple(obj.basis) == tuple(want_basis) and tuple(obj.direction) == direction
+                and tuple(obj.endpoints) == endpoints and obj.rank == rank):
+            J.add(f"{op}-alters-operand-labels-nd",
+                  f"after {op} the operand is labelled basis={obj.basis} direction="
+                  f"{obj.direction} endpoints={obj.endpoints}; expected {want_basis} {wh}")
+            return
+        if not is_ref:
+            return
+        if tuple(want_basis) == basis0:
+            J.cmp("operand_preserved", f"{op}-alters-operand-nd", obj.coefficients, a0, 0.0,
+                  f"{op} changed no basis, yet the stored coefficients of the operand "
+                  f"changed {wh}")
+        else:
+            Tw = R.outer_sum(vecs(repvec({i: want_basis[i] for i in P_axes})))
+            J.cmp("operand_preserved", f"{op}-alters-operand-nd", obj.coefficients, Tw, tol_,
+                  f"after {op} the operand (labelled {tuple(want_basis)}) no longer holds "
+                  f"the numbers that represent the same polynomial {wh}")
+        if again is None:
+            return
+        fn, first, tol_again = again
+        ok_, second = J.call(op, lambda: fn(obj), wh + " repeated on the same object")
+        if ok_:
+            f1 = first.coefficients if isinstance(first, Polynomial) else first
+            f2 = second.coefficients if isinstance(second, Polynomial) else second
+            J.cmp("operand_preserved", f"{op}-alters-operand-nd", f2, f1, tol_again,
+                  f"the same {op} call repeated on the same object gives a different "
+                  f"result {wh}")
+            J.cmp("operand_preserved", f"{op}-modifies-callers-array", a, a0, 0.0,
+                  f"the coefficient array handed to Polynomial() was modified by a "
+                  f"repeated {op} {wh}")
 
     def multi(ops):
         """error-growth factor for an operation touching axes ops={i: g_i}"""
@@ -747,6 +895,7 @@ def _case_nd(case):
               f"changeBasis({arg}) vs oracle tensor {what}")
         J.meta("changebasis-label-nd", tuple(p.basis) == target,
                f"basis label after changeBasis({arg}) is {p.basis} {what}")
+        preserved("changeBasis", p, what + f" -> {arg}", target, tol)
         ok, _ = J.call("changeBasis", lambda: p.changeBasis(basis0), what + " back")
         if ok:
             J.cmp("roundtrip", "changebasis-roundtrip-nd", p.coefficients, T0, tol,
@@ -794,6 +943,7 @@ def _case_nd(case):
         if ok:
             J.cmp("evaluate", "evaluate-nd", val, want_eval(coords), tol,
                   f"evaluate(coords{coords.shape}, axes={axarg}) {what}")
+            preserved("evaluate", p, what + f" axes={axarg}", basis0, 0.0)
         # single-point form, documented shape (len(axes),)
         c1 = coords[:, 0].copy()
         try:
@@ -841,8 +991,7 @@ def _case_nd(case):
         if isinstance(d, Polynomial):
             J.cmp("derivative", "derivative-nd", d.coefficients, want, tol,
                   f"derivative(axis={axarg}) vs exact derivative at all nodes {what}")
-        J.meta("derivative-modifies-coefficients-nd", np.array_equal(p.coefficients, T0),
-               f"derivative changed the object's coefficients {what}")
+        preserved("derivative", p, what + f" axis={axarg}", basis0, 0.0)
 
     # ---- (d) integration along one axis / several / all
     k = int(rng.integers(1, len(P_axes) + 1))
@@ -908,8 +1057,11 @@ def _case_nd(case):
         p = mk()
         iw = f"integrate(axis={axarg}, weight{w.shape}; classes " \
              f"{ {i: specs[i][0] for i in S} }) {what}"
+        w0 = np.array(w)
         ok, res = J.call("integrate", lambda: p.integrate(axarg, w), iw)
         if ok:
+            J.cmp("operand_preserved", "integrate-modifies-callers-weight", w, w0, 0.0,
+                  f"the weight array handed to integrate was modified {iw}")
             if not rest:
                 J.meta("integrate-return-type-nd", isinstance(res, float),
                        f"integration over all axes must return a float, got "
@@ -933,9 +1085,34 @@ def _case_nd(case):
                    f"after integrate(axis={axarg}) the object is labelled {p.basis}, "
                    f"expected {wbasis} {iw}")
             Tc = R.outer_sum(vecs(repvec({i: wbasis[i] for i in P_axes})))
+            tol_c = K * EPS * multi({i: g_cb(ns[i], conds[i]) for i in S}) * amp_in
             J.cmp("integrate_inplace", "integrate-alters-function-nd", p.coefficients, Tc,
-                  K * EPS * multi({i: g_cb(ns[i], conds[i]) for i in S}) * amp_in,
-                  f"object after integrate() must represent the same polynomial {iw}")
+                  tol_c, f"object after integrate() must represent the same polynomial {iw}")
+            preserved("integrate", p, iw, wbasis, tol_c,
+                      again=(lambda o: o.integrate(axarg, w), res, tol))
+        # trivial weight in every accepted spelling: equals an explicit array of ones and
+        # leaves the operand intact
+        forms = [("omitted", lambda o: o.integrate(axarg)),
+                 ("None", lambda o: o.integrate(axarg, None)),
+                 ("1", lambda o: o.integrate(axarg, 1)),
+                 ("1.0", lambda o: o.integrate(axis=axarg, weight=1.0))]
+        fname, ffn = forms[int(rng.integers(0, len(forms)))]
+        pa, pb = mk(), mk()
+        fw = f"integrate(axis={axarg}, weight {fname}) {what}"
+        tol_t = K * EPS * multi({i: g_int(ns[i]) + g_cb(ns[i], 1.0) for i in S}) * amp_in \
+            * math.pi ** len(S)
+        ok, r1 = J.call("integrate", lambda: ffn(pa), fw)
+        ok2, r2 = J.call("integrate", lambda: pb.integrate(axarg, np.ones(shape)), fw + " ones")
+        if ok and ok2:
+            c1 = r1.coefficients if isinstance(r1, Polynomial) else r1
+            c2 = r2.coefficients if isinstance(r2, Polynomial) else r2
+            J.cmp("integrate", "integrate-default-weight-nd", c1, c2, tol_t,
+                  f"trivial weight vs explicit array of ones {fw}")
+        if ok:
+            wbasis = tuple("Cardinal" if i in S else basis0[i] for i in range(rank))
+            preserved("integrate", pa, fw, wbasis,
+                      K * EPS * multi({i: g_cb(ns[i], conds[i]) for i in S}) * amp_in,
+                      again=(ffn, r1, tol_t))
 
     # ---- (e) independence along axes and (f) linearity, on full random arrays
     shape = T0.shape
